@@ -1942,6 +1942,38 @@ theorem exIts_shape2 : Shape2 exIts := by
 example : processContainer (containerSection (t "oral_formants? <exists>") (t "xmin = 0") (t "xmax = 1") exIts) = .ok exIts :=
   container_roundtrip _ _ _ (by decide) (by decide) (by decide) exIts exIts_shape2
 
+/-! ## the layout of a whole written file (shared by the whole-file theorems in `Props/C19File.lean`, `Props/C19Read.lean`) -/
+
+/-- the numeral `_cleanNumericValues` leaves in a `head = tail` row: a zero-valued non-integer literal
+(`0.0`, `-0.0`, `0e0`) becomes `0`; everything else is kept -/
+def cz (n : Txt) : Txt := if isIntLit n = true then n else if fclass n = some FClass.zero then t "0" else n
+
+def cleanPT (p : PT) : PT := { p with pts := p.pts.map fun q => (cz q.1, cz q.2) }
+def cleanIT (i : IT) : IT := { i with subs := i.subs.map cleanPT }
+def cleanSec : Sec → Sec
+  | .tier p => .tier (cleanPT p)
+  | .cont n its => .cont n (its.map cleanIT)
+def cleanWSec (w : WSec) : WSec := { w with sec := cleanSec w.sec }
+
+/-- rows of a top-level tier section as they stand in the file -/
+def tierLines (p : PT) : List Txt :=
+  [p.name ++ t "? <exists>", t "xmin = " ++ p.xmin, t "xmax = " ++ p.xmax] ++
+    (if noPointsHeader.contains p.name then [] else [t "points: size = " ++ natDec p.pts.length]) ++
+    pointRows [] 0 p.pts
+
+/-- rows of a section (tier or container) as they stand in the file -/
+def wsecLines (w : WSec) : List Txt :=
+  match w.sec with
+  | .tier p => tierLines p
+  | .cont name its =>
+    [name ++ t "? <exists>"] ++
+      (match w.span with | some (a, b) => [t "xmin = " ++ a, t "xmax = " ++ b] | none => []) ++ bodyLines its
+
+/-- all rows of the file `Klattgrid.save` writes; the file is these rows, each followed by a newline -/
+def fileLines (xmin xmax : Txt) (secs : List WSec) : List Txt :=
+  [t "File type = \"ooTextFile\"", t "Object class = \"KlattGrid\"", [], t "xmin = " ++ xmin, t "xmax = " ++ xmax] ++
+    (secs.map wsecLines).flatten
+
 /-! ## (d) point objects: the two layouts, together -/
 
 /-- **(d)** `read (write po) = po` at the numeral level, for every number of points: PointProcess through
